@@ -8,7 +8,7 @@ from vlib import env, grammar as G, lists as L
 from props.c11 import whole_text_modulo_cleanup
 
 pytrs = env.import_pytrs()
-from pytrs import PLSSDesc  # noqa: E402
+from pytrs import PLSSDesc, Config  # noqa: E402
 
 ID = "C20"
 RULE = (
@@ -164,6 +164,29 @@ def oracle_nocolons(d):
     k5.parse(sec_colon_required=True)
     if tr(k5) != tr(c):
         fails.append(Failure("required_kw_over_cautious_config", f"{text!r}: config sec_colon_cautious + parse(sec_colon_required=True) gives {tr(k5)}, sec_colon_required alone gives {tr(c)}", text=text))
+    # being told the layout the text is written in (at creation, in the configuration, or for one parse) does not change the fallback
+    lay = d["layout"]
+    m1 = PLSSDesc(text, layout=lay, config="sec_colon_required")
+    m2 = PLSSDesc(text, config=f"{lay},sec_colon_required")
+    m3 = PLSSDesc(text, wait_to_parse=True)
+    m3.parse(layout=lay, sec_colon_required=True)
+    for how, m in ((f"layout={lay!r} at creation", m1), (f"config '{lay},sec_colon_required'", m2), (f"parse(layout={lay!r}, sec_colon_required=True)", m3)):
+        if len(m.tracts) != 1 or (len(c.tracts) == 1 and tr(m) != tr(c)):
+            fails.append(Failure("required_with_mandated_layout", f"{text!r}: sec_colon_required with {how} gives {tr(m)}, with the layout deduced {tr(c)}", text=text))
+            break
+    # an object configured to require colons, then re-configured to be merely cautious (explicit False): as a new cautious object
+    r1 = PLSSDesc(text, config="sec_colon_required")
+    r1.config = "sec_colon_required.False,sec_colon_cautious"
+    r1.parse()
+    r2 = PLSSDesc(text, config="sec_colon_required")
+    r2.config = Config.from_kwargs(sec_colon_required=False, sec_colon_cautious=True)
+    r2.parse()
+    for how, r in (("config text", r1), ("Config.from_kwargs", r2)):
+        pulled_r = [f for f in r.w_flags if isinstance(f, str) and f.startswith("pulled_sec_without_colon<")]
+        if tr(r) != tr(b) or not pulled_r:
+            fails.append(Failure("cautious_after_required_reconfigured", f"{text!r}: configured sec_colon_required, then re-configured ({how}) sec_colon_required.False,sec_colon_cautious and parsed: "
+                                 f"{tr(r)} with warnings {pulled_r}, a new cautious object gives {tr(b)}", text=text))
+            break
     # the one fallback tract is what asking for copy_all gives: the colon mode does not lose the Twp/Rge/Sec a plain copy_all identifies
     ca = PLSSDesc(text, layout="copy_all")
     if len(c.tracts) == 1 and len(ca.tracts) == 1 and ca.tracts[0].sec_num is not None and c.tracts[0].trs != ca.tracts[0].trs:
@@ -185,6 +208,7 @@ WITHIN = st.fixed_dictionaries({
     "lead": st.sampled_from(LEAD), "trail": st.sampled_from(TRAIL), "lst": L.rendered_list("sec", 36, 2), "place": st.sampled_from(PLACE),
     "twp": st.integers(1, 200), "rge": st.integers(3, 120), "ns": st.sampled_from("ns"), "ew": st.sampled_from("ew"),
     "tr_sp": st.sampled_from(_TRSP), "conn": st.sampled_from(BETWEEN_CONN), "trail2": st.sampled_from(TRAIL2),
+    "upper": st.sampled_from([False, False, False, True]),      # the whole description typed in capitals
 })
 
 
@@ -212,6 +236,8 @@ def within_text(c):
 
 def oracle_within(c):
     text = within_text(c)
+    if c.get("upper"):
+        text = text.upper()
     d = PLSSDesc(text, config="sec_within")
     lead = re.sub(r"\s+(of|in)$", "", c["lead"])
     want_desc = f"{lead} {c['trail']}"
@@ -219,6 +245,8 @@ def oracle_within(c):
         want_desc = f"{lead} {c['trail']} {c['trail2']}"
     elif c["place"] == "before_and_after":
         want_desc = f"{lead} {c['trail']}, {c['trail2']}"
+    if c.get("upper"):
+        want_desc = want_desc.upper()
     twprge = f"{c['twp']}{c['ns']}{c['rge']}{c['ew']}"
     want = [(f"{twprge}{n:02d}", want_desc) for n in L.expand(c["lst"]["items"])]
     fails = []
@@ -282,7 +310,7 @@ SUBS = [
         n={"quick": 400, "thorough": 6000}, shards={"quick": 4, "thorough": 16}),
     Sub("sec_within", oracle_within, strategy=lambda tier: WITHIN, validate=validate_within,
         nontrivial=lambda c: len(L.expand(c["lst"]["items"])) > 1 or not c["place"].startswith("before"),
-        classes=lambda c: [f"place={c['place']}", "multi" if len(L.expand(c["lst"]["items"])) > 1 else "single"],
+        classes=lambda c: [f"place={c["place"]}", "multi" if len(L.expand(c["lst"]["items"])) > 1 else "single"] + (["capitals"] if c.get("upper") else []),
         render=lambda c: {"text": within_text(c)},
         n={"quick": 800, "thorough": 10000}, shards={"quick": 2, "thorough": 8},
         essential=tuple(f"place={p}" for p in PLACE) + ("multi", "single")),
